@@ -67,6 +67,8 @@ pub struct RunOut {
     pub workload_ops: u64,
     /// a few concrete cases of this run, for the evidence samples
     pub sample_notes: Vec<String>,
+    /// storage ops of the workload phase at the commit point (meta.json replacement, directory syncs)
+    pub commit_point_ops: Vec<u64>,
 }
 
 impl RunOut {
@@ -1139,6 +1141,17 @@ impl<'a> Exec<'a> {
                 v
             });
         }
+        let (lo, hi) = (self.setup_ops, self.out.workload_ops);
+        self.out.commit_point_ops = self.dir.with(|s| {
+            s.log
+                .iter()
+                .filter(|r| r.seq >= lo && r.seq < hi)
+                .filter(|r| {
+                    (r.kind == OpKind::AtomicWrite && s.paths[r.path as usize] == Path::new("meta.json")) || r.kind == OpKind::SyncDir
+                })
+                .map(|r| r.seq)
+                .collect()
+        });
         self.out.log_hash = hash;
         self.out.spawn_count = tantivy::verif_sim::with_knobs(|k| k.spawn_count);
         self.out.storage_ops = ops;
